@@ -37,6 +37,7 @@ func init() {
 			c11SniffSnapshot(c)
 			c11DebugDialerWrap(c)
 			c11DebugDialerRebind(c)
+			c15PrefetchMeasured(c)
 			parserHelperRules(c, "C11")
 			// the debug dialer sees the handshake through WrapConn: it must wrap the outermost connection
 			c20DialConn(c)
@@ -228,12 +229,10 @@ func c11DebugPassthrough(c *Ctx) {
 				if !writer {
 					return false
 				}
-				for _, e := range elems(x.Call.Args[0]) {
-					if reaches(e, writer, depth+1) {
-						return true
-					}
-				}
-				return false
+				// the connection comes first: MultiWriter stops at the first writer that fails, so
+				// the copy behind it holds what the transport took, not bytes that were never sent
+				es := elems(x.Call.Args[0])
+				return len(es) > 0 && reaches(es[0], writer, depth+1)
 			case "io.TeeReader":
 				return !writer && reaches(x.Call.Args[0], writer, depth+1)
 			}
@@ -286,9 +285,9 @@ func c11DebugPassthrough(c *Ctx) {
 				c.R.Fail(rule, rule+"/reader", pos, "the reader handed to the Upgrader does not continue with the connection after the sniffed bytes: when the sniffer stops early (net/http refuses a request the Upgrader accepts) or the request arrives in several reads, the wrapped handshake fails where the plain one succeeds")
 			}
 			if reaches(parts[1], true, 0) {
-				c.R.OK(rule, rule+"/writer", pos, "the writer is the connection, or a MultiWriter that includes it")
+				c.R.OK(rule, rule+"/writer", pos, "the writer is the connection, or a MultiWriter that writes the connection first")
 			} else {
-				c.R.Fail(rule, rule+"/writer", pos, "the writer handed to the Upgrader does not write to the connection")
+				c.R.Fail(rule, rule+"/writer", pos, "the writer handed to the Upgrader does not write to the connection first: a MultiWriter stops at the first writer that fails, so a copy placed before the connection reports bytes that were never sent")
 			}
 		}
 	}
@@ -612,6 +611,12 @@ func c11DebugDialerWrap(c *Ctx) {
 		cl.M.Emit(fold.Effect{Kind: "call", Name: "userWrap", Args: cl.Args})
 		return fold.Iface{V: fold.Sym{Name: "wrapped(" + nameOf(cl.Args[0]) + ")", NonNil: true}}
 	}
+	m.Models["io.MultiWriter"] = func(cl *fold.Call) fold.Val {
+		if sl, ok := cl.Args[0].(fold.SliceV); ok && sl.Len > 0 {
+			cl.M.Emit(fold.Effect{Kind: "call", Name: "MultiWriter-first", Args: []fold.Val{cl.M.Elems(sl)[0]}})
+		}
+		return fold.Iface{V: fold.Sym{Name: "multiwriter", NonNil: true}}
+	}
 	var connObj *fold.Obj
 	userSet := false
 	m.Bind = func(mm *fold.Machine) []fold.Val {
@@ -667,6 +672,11 @@ func c11DebugDialerWrap(c *Ctx) {
 		if connObj == nil {
 			problems = append(problems, "undecided: the hook does not remember the connection in a captured net.Conn variable")
 			return
+		}
+		for _, e := range p.Calls("MultiWriter-first") {
+			if first := nameOf(e.Args[0]); first != want {
+				problems = append(problems, "the request is teed with "+first+" in front of the connection: MultiWriter stops at the first failing writer, so the copy must come after the transport")
+			}
 		}
 		if got := nameOf(mm.Load(fold.Ref{O: connObj})); got != want {
 			problems = append(problems, fmt.Sprintf("the connection Dial hands back (and re-points the buffered reader at) is %s, the handshake ran on %s: the user's WrapConn is lost for everything after the handshake", got, want))
